@@ -195,6 +195,7 @@ func BuildEngine(c *Case, reg prometheus.Registerer) (queryEngine, []*mstore.Sto
 			return nil, nil, err
 		}
 		st.Faults = DistFaults[len(stores)]
+		st.HonorCtx = c.StoreCtx
 		stores = append(stores, st)
 		remotes = append(remotes, engine.NewLocalEngine(ro, st))
 	}
